@@ -78,6 +78,7 @@ structure Case where
   concRem : Nat := 0
   lastIdleSelect : Nat := 0                    -- call number of the last `select(timeout=0) -> 0`
   spin : Nat := 0
+  slow : Bool := false                         -- scenario with slow deliveries (`slow=`): STATS counters of the slow-delivery fault sweep
 
 def routeSimple (a : Bytes) : Ch × Bytes :=
   -- harness configuration: me = locals = h.example, no virtualdomains, no percenthack
@@ -296,7 +297,12 @@ def handle (d : D) (line : String) : IO D := do
     if st.samples < 3 then
       IO.println s!"SAMPLE {hl}"
       st := { st with samples := st.samples + 1 }
-    return { st := st, c := { hdr := hl, cfg := cfg, concLoc := concL, concRem := concR } }
+    -- the slow-delivery fault sweep (scenarios with `slow=`): how many histories, how many of them with a failing call
+    let slow := kvOf rest "slow" != "" && kvOf rest "slow" != "0"
+    if slow then
+      st := st.bump "fam_slow"
+      if (kvOf rest "fault").startsWith "0:" then st := st.bump "fam_slow_fault"
+    return { st := st, c := { hdr := hl, cfg := cfg, concLoc := concL, concRem := concR, slow := slow } }
   | "X" :: "newmsg" :: rest =>
     let m := (kvOf rest "id").toNat!
     let sender := (unhex (kvOf rest "sender")).getD []
@@ -386,6 +392,8 @@ def handle (d : D) (line : String) : IO D := do
     if kvOf rest "exit" == "0" && kvOf rest "crashed" == "0" && !d.c.obs.active.isEmpty then
       oracleFail d "C04" s!"qmail-send exited 0 while {d.c.obs.active.length} deliveries were in flight (attempts {d.c.obs.active.map (·.2.2)}): their reports are lost, the recipients will be attempted again"
     else return d
+  | "X" :: "signal" :: sg :: _ =>
+    if d.c.slow && sg != "T" && !d.c.obs.active.isEmpty then return { d with st := d.st.bump "slow_signal_in_flight" } else return d
   | "X" :: _ => return d
   | "D" :: tag :: path :: rest =>
     -- queue dump lines; the last dump of the case is what the oracle judges; after a crash they resync the monitor
@@ -427,6 +435,32 @@ def handle (d : D) (line : String) : IO D := do
     return dd
   | "T" :: "P0" :: rest =>
     let d ← endCrashDump d
+    -- STATS of the slow-delivery fault sweep: the failing call fired; it was the open/fstat/read of a pass opening (open_read of
+    -- local|remote/<m>, then getinfo: open_read, fstat, read of info/<m>); it fired while deliveries were in flight
+    let d := if d.c.slow && rest.getLast? == some "FAULT" then
+        let st := d.st.bump "slow_fault_fired"
+        let st := if !d.c.obs.active.isEmpty then st.bump "slow_fault_fired_in_flight" else st
+        let st := match rest with
+          | _ :: "open_read" :: path :: _ =>
+            (match pathMsg path with
+             | some (dir, _) => if dir == "info" || dir == "local" || dir == "remote" then st.bump "slow_fault_open_read_info_or_chan" else st
+             | none => st)
+          | _ :: "stat" :: path :: _ =>
+            (match pathMsg path with
+             | some (dir, _) => if dir == "info" || dir == "todo" || dir == "local" || dir == "remote" then st.bump "slow_fault_stat" else st
+             | none => st)
+          | _ => st
+        { d with st := st }
+      else d
+    -- … and how many passes were opened (open_read of local|remote/<m>, failing or not) while deliveries were in flight
+    let d := if d.c.slow && !d.c.obs.active.isEmpty then
+        match rest with
+        | _ :: "open_read" :: path :: _ =>
+          (match pathMsg path with
+           | some (dir, _) => if dir == "local" || dir == "remote" then { d with st := d.st.bump "slow_pass_open_in_flight" } else d
+           | none => d)
+        | _ => d
+      else d
     -- a failing system call of `markdone` (open_write / fstat / write on local|remote/<m>) excuses the mark of the record it was
     -- called for — the oldest report of the current read whose mark is still outstanding ("trouble marking …; message will be
     -- delivered twice") — and nothing else
@@ -614,6 +648,10 @@ def handle (d : D) (line : String) : IO D := do
        let maxDone := d.c.obs.marks.foldl (fun acc x => max acc (marksOf x)) 0
        if d.c.spin == max 3 maxDone then
         d ← oracleFail d "C16" s!"busy loop: select(timeout=0) returned 0 {d.c.spin + 1} times in a row with no other system call (call #{k})"
+      if d.c.slow && !d.c.obs.active.isEmpty then
+        match (kvOf more "clock").toNat? with
+        | some t => if t > d.c.obs.clock then d := { d with st := d.st.bump "slow_clock_advanced_in_flight" }
+        | none => pure ()
       match (kvOf more "clock").toNat? with
       | some t => feed { d with c := { d.c with obs := { d.c.obs with clock := max d.c.obs.clock t } } } (.tick t) "tick"
       | none => return d
